@@ -25,7 +25,7 @@ ASSUMPTIONS = ["CPython may switch threads between any two of the instrumented o
                "end of a peer's stream is signalled the way the loop itself exits: the thread's exit event is set and recv raises TimeoutError"]
 MAG = rp.MAGIC["mainnet"]
 HANDLED = (b"version", b"verack", b"ping")
-KINDS = ["ping", "version", "verack", "inv", "addr", "unknown", "ping", "inv", "ping0", "pingmax", "inv_same", "inv_same", "unknown_same", "addr_max"]
+KINDS = ["ping", "version", "verack", "inv", "addr", "unknown", "ping", "inv", "ping0", "pingmax", "inv_same", "inv_same", "unknown_same", "addr_max", "addr_empty", "inv_empty", "unknown_nul", "unknown_nul_v"]
 
 SMALL_SCENARIOS = [
     [["ping", "inv"], ["inv", "ping"]],
@@ -40,6 +40,7 @@ SMALL_SCENARIOS = [
     # twice" is a legitimate history of its own (re-announcements) and exactly-once must hold for it as well
     [["inv_same", "inv_same"], ["addr"]],
     [["inv_same", "ping"], ["inv_same"]],
+    [["addr_empty", "inv"], ["unknown_nul", "ping"]],
 ]
 
 
@@ -78,6 +79,13 @@ def build_message(kind, peer, seq):
             ents.append((t, sv, ipb, 8333))
             exp.append({"time": t, "services": sv, "ip_addr": ipb, "port": 8333})
         return b"addr", rp.addr_payload(ents), {"addrs": exp}, None
+    if kind == "addr_empty":
+        return b"addr", rp.addr_payload([]), {"addrs": []}, None          # a count of zero is a whole message (payload 00)
+    if kind == "inv_empty":
+        return b"inv", rp.inv_payload([]), {"count": 0, "inventory": []}, None
+    if kind in ("unknown_nul", "unknown_nul_v"):
+        # an unknown command whose 12-byte field BEGINS with a handled name, then NUL, then more bytes: not that handled command
+        return (b"ping\x00v%d" % (uid % 10)) if kind == "unknown_nul" else (b"version\x00x%d" % (uid % 10)), struct.pack("<Q", uid), "UNPARSED", None
     if kind == "inv_same":
         h = b"\x22" * 32
         p = rp.inv_payload([("MSG_BLOCK", h)])
